@@ -344,6 +344,13 @@ func genC08(r *gen.Rand) *C08Case {
 		inv.Args = append([]string{"-f", r.Pick("json", "yaml", "toml", "json-pretty")}, inv.Args...)
 	}
 
+	if r.Chance(0.04) {
+		// the process environment is whatever the parent passed to execve:
+		// entries without "=", with an empty name, twice the same name
+		inv.RawEnv = [][]string{{"NOEQUALS"}, {"=leading"}, {"VERIF_A=again", "VERIF_A"}, {"", "X"}, {"\xff\xfe=\xff"}, {"VERIF_B"}}[r.Intn(6)]
+		c.Faults = append(c.Faults, "env:malformed-entry")
+	}
+
 	// faults
 	nf := gen.PickAny(r, []int{0, 0, 1, 1, 1, 2})
 	for i := 0; i < nf; i++ {
@@ -525,7 +532,11 @@ func (c *C08Case) addFault(r *gen.Rand, names []string) {
 		c.Faults = append(c.Faults, "input:stdin")
 	default: // -o to a good file: stdout must stay empty
 		if c.OutFile == "" {
-			c.OutFile = "result." + r.Pick("json", "yaml", "toml")
+			// an output path without an extension and no -f: the default format
+			c.OutFile = r.Pick("result.json", "result.yaml", "result.toml", "result", "result.d/out")
+			if strings.HasPrefix(c.OutFile, "result.d/") {
+				w.Dirs = append(w.Dirs, filepath.Join(c08Dir, "result.d"))
+			}
 			inv.Args = append([]string{"-o", c.OutFile}, inv.Args...)
 			c.Faults = append(c.Faults, "sink:output-file")
 			if r.Chance(0.4) {
@@ -649,7 +660,7 @@ func judgeC08(e *Env, c *C08Case, tag string, run int64) (*c08Obs, *procsim.Outc
 				if fi.Mode().IsRegular() {
 					// the file must hold what the same world writes to stdout
 					i2 := c.Inv
-					i2.Args = dropOutFlag(c.Inv.Args, c.OutFile, procsim.Ext(c.OutFile))
+					i2.Args = dropOutFlag(c.Tool, c.Inv.Args, c.OutFile, procsim.Ext(c.OutFile))
 					o2, err := runInv(e, root, c.Tool, &i2)
 					if err != nil {
 						return err
@@ -789,7 +800,7 @@ func jsonTwin(c *C08Case) *C08Case {
 }
 
 // dropOutFlag removes "-o file" and pins the format the file would have had.
-func dropOutFlag(args []string, file, ext string) []string {
+func dropOutFlag(tool string, args []string, file, ext string) []string {
 	var out []string
 	hasF := false
 	for _, a := range args {
@@ -803,6 +814,12 @@ func dropOutFlag(args []string, file, ext string) []string {
 			continue
 		}
 		out = append(out, args[i])
+	}
+	if !hasF && ext == "" && tool == "bkl" {
+		// documented default of OutputToFile / OutputToWriter for a path
+		// without an extension (the other tools fall back to the format of
+		// their first input, for a file as for stdout)
+		ext = "json-pretty"
 	}
 	if !hasF && ext != "" {
 		out = append([]string{"-f", ext}, out...)
